@@ -6,9 +6,10 @@ valid content).  Here: what the operations *answer*.  Proofs in `Lemmas/Lineariz
 imports `Props/C07` and `Props/C04`, hence this separate module).
 -/
 import Cacache.Lemmas.Linearize
+import Cacache.Lemmas.LinearizeLs
 
 namespace Cacache.C07x
-open Prog Refine Linearize
+open Prog Refine Linearize ListRefine LinearizeLs
 
 variable (cfg : Cfg) (env : Env) (cache : Path)
 
@@ -96,5 +97,112 @@ theorem lookup_snapshot {γ : Type} (g : Res (Option Meta) → γ) (key' : Bytes
       BucketIs (interleave env ps fs sched).2 (bucketPath cfg cache key')
         ((codec cfg).appendAll b0 (rs ++ rs')) :=
   Linearize.lookup_snapshot cfg env cache g key' b0 hs ps i hi hp fs h0 sched c hfin
+
+/-! ### listers (Lemmas/LinearizeLs)
+
+A listing is not a snapshot of the whole index (one walk, then one read per bucket), but every concurrent
+single-key operation touches ONE bucket file and operations on different bucket files commute: an
+operation whose linearization point comes while the lister still has to read its bucket goes before
+the lister, every other one after it.  Listings are compared up to the order of their items (the
+model's walk order means nothing, as the real `read_dir` order).  `hwarm` (`index-v5` exists) is what
+excludes the cold-cache lister, known finding F23. -/
+
+/-- **Any number of index writers / removers / readers and ONE lister are serializable - every
+schedule**: there is a duplicate-free serial history containing exactly the finished processes;
+running the REAL programs sequentially in that order (`runHist`) gives the same answers one by one
+(a listing up to order), the same abstract index, the same lookups of every key and the same
+listing afterwards as the filesystem the concurrent execution left. -/
+theorem ls_among_writers_serializable (ops : List IOp) (hops : ∀ op ∈ ops, OpWF cfg op) (fs : FS)
+    (hX : XHealthy cfg cache fs) (hwarm : fs.get (cache ++ [dIndex]) = some .dir) (sched : List Nat) :
+    ∃ hist : List (Nat × (Out ⊕ List LsItem)), (hist.map Prod.fst).Nodup ∧
+      (∀ j out, (j, out) ∈ hist ↔
+        FinishedWith env (procs cfg cache Sum.inl Sum.inr ops) fs sched j out) ∧
+      SameAnswers (hist.map Prod.snd) (runHist cfg env cache ops (hist.map Prod.fst) fs).1 ∧
+      absIndex cfg cache (runHist cfg env cache ops (hist.map Prod.fst) fs).2 =
+        absIndex cfg cache (interleave env (procs cfg cache Sum.inl Sum.inr ops) fs sched).2 ∧
+      (∀ key env', (run env' (find cfg cache key) (runHist cfg env cache ops (hist.map Prod.fst) fs).2).1 =
+        (run env' (find cfg cache key) (interleave env (procs cfg cache Sum.inl Sum.inr ops) fs sched).2).1) ∧
+      ∀ env', (run env' (ls cfg cache) (runHist cfg env cache ops (hist.map Prod.fst) fs).2).1.Perm
+        (run env' (ls cfg cache) (interleave env (procs cfg cache Sum.inl Sum.inr ops) fs sched).2).1 :=
+  LinearizeLs.ls_among_writers_serializable cfg env cache ops hops fs hX hwarm sched
+
+/-- **… and to the abstract map**: each writer answers the abstract operation at its position, the
+lister's items list exactly the abstract index at its position (`ListsIndex`), and the index is
+healthy with the side invariant again, so the statement composes. -/
+theorem ls_among_writers_linearizable {γ : Type} (f : Out → γ) (g : List LsItem → γ) (ops : List IOp)
+    (hops : ∀ op ∈ ops, OpWF cfg op) (fs : FS) (h : HealthyIndex cfg cache fs)
+    (hS : Side cfg cache fs) (sched : List Nat) :
+    (HealthyIndex cfg cache (interleave env (procs cfg cache f g ops) fs sched).2 ∧
+      Side cfg cache (interleave env (procs cfg cache f g ops) fs sched).2) ∧
+    ∃ hist : List (Nat × γ), (hist.map Prod.fst).Nodup ∧
+      LegalLs (specF env f ops) ops.length g hist (absIndex cfg cache fs)
+        (absIndex cfg cache (interleave env (procs cfg cache f g ops) fs sched).2) ∧
+      ∀ j out, (j, out) ∈ hist ↔ FinishedWith env (procs cfg cache f g ops) fs sched j out :=
+  LinearizeLs.ls_among_writers_linearizable cfg env cache f g ops hops fs h hS sched
+
+/-- **One inserter and one lister**: under every schedule the listing is (up to order) what `ls`
+answers alone before the insertion or alone after it. -/
+theorem ls_linearizable_insert (key : Bytes) (o : WriteOpts) (hw : OptsWF key o) (hs : SriOK cfg o)
+    (fs : FS) (hX : XHealthy cfg cache fs) (hwarm : fs.get (cache ++ [dIndex]) = some .dir)
+    (sched : List Nat) (r : List LsItem)
+    (hfin : FinishedWith env [(insert cfg cache key o).mapRes Sum.inl,
+      (ls cfg cache).mapRes (Sum.inr : _ → Res Integrity ⊕ List LsItem)] fs sched 1 (.inr r)) :
+    r.Perm (run env (ls cfg cache) fs).1 ∨
+    r.Perm (run env (ls cfg cache) (run env (insert cfg cache key o) fs).2.1).1 :=
+  LinearizeLs.ls_linearizable_insert cfg env cache key o hw hs fs hX hwarm sched r hfin
+
+/-- The same next to a removal. -/
+theorem ls_linearizable_delete (key : Bytes) (hk : Json.utf8Valid key = true)
+    (fs : FS) (hX : XHealthy cfg cache fs) (hwarm : fs.get (cache ++ [dIndex]) = some .dir)
+    (sched : List Nat) (r : List LsItem)
+    (hfin : FinishedWith env [(delete cfg cache key).mapRes Sum.inl,
+      (ls cfg cache).mapRes (Sum.inr : _ → Res Unit ⊕ List LsItem)] fs sched 1 (.inr r)) :
+    r.Perm (run env (ls cfg cache) fs).1 ∨
+    r.Perm (run env (ls cfg cache) (run env (delete cfg cache key) fs).2.1).1 :=
+  LinearizeLs.ls_linearizable_delete cfg env cache key hk fs hX hwarm sched r hfin
+
+/-- **Both results and the final filesystem are those of a serial execution** (insertion's result and
+filesystem literally, the listing up to order). -/
+theorem ls_insert_serial (key : Bytes) (o : WriteOpts) (hw : OptsWF key o) (hs : SriOK cfg o)
+    (fs : FS) (hX : XHealthy cfg cache fs) (hwarm : fs.get (cache ++ [dIndex]) = some .dir)
+    (sched : List Nat) (c0 c1 : Res Integrity ⊕ List LsItem)
+    (h0 : FinishedWith env [(insert cfg cache key o).mapRes Sum.inl,
+      (ls cfg cache).mapRes Sum.inr] fs sched 0 c0)
+    (h1 : FinishedWith env [(insert cfg cache key o).mapRes Sum.inl,
+      (ls cfg cache).mapRes Sum.inr] fs sched 1 c1) :
+    ∃ x r, c0 = .inl x ∧ c1 = .inr r ∧
+      ((x = (serialRW env (insert cfg cache key o) (ls cfg cache) fs).1 ∧
+        r.Perm (serialRW env (insert cfg cache key o) (ls cfg cache) fs).2.1 ∧
+        (interleave env [(insert cfg cache key o).mapRes Sum.inl, (ls cfg cache).mapRes Sum.inr] fs sched).2 =
+          (serialRW env (insert cfg cache key o) (ls cfg cache) fs).2.2) ∨
+       (x = (serialWR env (insert cfg cache key o) (ls cfg cache) fs).1 ∧
+        r.Perm (serialWR env (insert cfg cache key o) (ls cfg cache) fs).2.1 ∧
+        (interleave env [(insert cfg cache key o).mapRes Sum.inl, (ls cfg cache).mapRes Sum.inr] fs sched).2 =
+          (serialWR env (insert cfg cache key o) (ls cfg cache) fs).2.2)) :=
+  LinearizeLs.ls_insert_serial cfg env cache key o hw hs fs hX hwarm sched c0 c1 h0 h1
+
+/-- **The property's quantifier literally - three operations**: two index operations (any two of
+insert / delete / find, any keys) and one lister: the finished processes' answers are those of a
+serial run of the real programs, and the listing is (up to order) `ls` alone on the initial
+filesystem, after `w1`, after `w2`, after `w1; w2` or after `w2; w1`. -/
+theorem ls_two_writers_serializable (w1 w2 : IOp) (h1 : OpWF cfg w1) (h2 : OpWF cfg w2) (fs : FS)
+    (hX : XHealthy cfg cache fs) (hwarm : fs.get (cache ++ [dIndex]) = some .dir) (sched : List Nat) :
+    (∃ hist : List (Nat × (Out ⊕ List LsItem)), (hist.map Prod.fst).Nodup ∧
+      (∀ j out, (j, out) ∈ hist ↔
+        FinishedWith env [(opProg cfg cache w1).mapRes Sum.inl, (opProg cfg cache w2).mapRes Sum.inl,
+          (ls cfg cache).mapRes Sum.inr] fs sched j out) ∧
+      SameAnswers (hist.map Prod.snd) (runHist cfg env cache [w1, w2] (hist.map Prod.fst) fs).1 ∧
+      absIndex cfg cache (runHist cfg env cache [w1, w2] (hist.map Prod.fst) fs).2 =
+        absIndex cfg cache (interleave env [(opProg cfg cache w1).mapRes Sum.inl,
+          (opProg cfg cache w2).mapRes Sum.inl, (ls cfg cache).mapRes Sum.inr] fs sched).2) ∧
+    ∀ c, FinishedWith env [(opProg cfg cache w1).mapRes Sum.inl, (opProg cfg cache w2).mapRes Sum.inl,
+        (ls cfg cache).mapRes Sum.inr] fs sched 2 c →
+      ∃ r, c = .inr r ∧
+        (r.Perm (run env (ls cfg cache) fs).1 ∨
+         r.Perm (run env (ls cfg cache) (runOp cfg cache env w1 fs).2).1 ∨
+         r.Perm (run env (ls cfg cache) (runOp cfg cache env w2 fs).2).1 ∨
+         r.Perm (run env (ls cfg cache) (runOp cfg cache env w2 (runOp cfg cache env w1 fs).2).2).1 ∨
+         r.Perm (run env (ls cfg cache) (runOp cfg cache env w1 (runOp cfg cache env w2 fs).2).2).1) :=
+  LinearizeLs.ls_two_writers_serializable cfg env cache w1 w2 h1 h2 fs hX hwarm sched
 
 end Cacache.C07x
